@@ -58,6 +58,11 @@ def run(ctx: Ctx):
               ' the input queue (`result.stop_with(<input>)`, R-C13-10) — linked the other way round, the end of the feeders'
               ' stops the result queue while the workers still hold elements: their remaining puts are dropped and the'
               ' consumer gets end-of-stream with the tail of the stream missing', _c13.r10, min_instances=1)
+  from mlmverif.props import c14 as _c14
+  ctx.include('R-C04-24', '"exactly one end-of-stream carrying all producers\' return values" on the ASYNC consumer paths too: every'
+              ' conversion of the queue\'s StopIteration into StopAsyncIteration passes `*e.args` on (R-C14-16) — a bare'
+              ' `StopAsyncIteration()` ends `async for` / async_get_batch consumers (and a queue chained behind them) with'
+              ' no return values', _c14.r16, min_instances=3)
   ctx.include('R-C04-15', '"end-of-stream carrying all producers\' return values":'
               ' the enqueue loops forward every return value of their iterator'
               ' (`*e.args` / `e.value`), also when the iterator is another queue'
@@ -1433,6 +1438,8 @@ from mlmverif.selfcheck import B, OK  # noqa: E402
 
 _F = 'utils/iter_utils.py'
 VARIANTS = [
+    B('async-batch-end-of-stream-without-values', 'utils/iter_utils.py',
+      "    return iterator_queue.get_batch()\n  except StopIteration as e:\n    raise StopAsyncIteration(*e.args) from e", "    return iterator_queue.get_batch()\n  except StopIteration as e:\n    raise StopAsyncIteration() from e", 'R-C04-24'),
     B('async-producer-registers-after-its-source-resolved', 'utils/iter_utils.py',
       "    self._start_enqueue()\n    try:\n      if isinstance(iterator, Awaitable):\n        iterator = await iterator\n      if not isinstance(iterator, AsyncIterator):\n        iterator = aiter(iterator)\n",
       "    try:\n      if isinstance(iterator, Awaitable):\n        iterator = await iterator\n      if not isinstance(iterator, AsyncIterator):\n        iterator = aiter(iterator)\n      self._start_enqueue()\n", 'R-C04-22'),
